@@ -90,3 +90,178 @@ def _(c):
     c.modifies('new', 'when(isinstance(new, MatcherList), list(cast(MatcherList, new).positive))', 'when(isinstance(new, MatcherList), list(cast(MatcherList, new).negative))',
                'when(isinstance(new, MatcherList), cast(MatcherList, new).positive)')
     c.native_gen(lambda rnd: gen.join_pair(rnd))
+
+
+# ======================================================================================================================
+# The `matches` layer (C05 layer M, C18: an accepted matcher can be evaluated on any message): each class's verdict is
+# pinned to a defining contract; no override writes anything or raises.
+ARG = 'Obj("core.wl.arg.Arg.Base")'
+OBJ = 'Obj("core.wl.object.ObjectBase")'
+MSG = 'Obj("core.wl.message.Message")'
+
+
+@contract('core.matcher.PairMatcher.matches')
+def _(c):
+    c.prop('C05', 'C18')
+    c.types(pair='Tuple(str, %s)' % ARG).returns('bool')
+    c.defines('self.a.matches(pair[0]) and self.b.matches(pair[1])')
+    c.modifies()
+    c.native_gen(lambda rnd: gen.pair_case(rnd))
+
+
+@contract('core.matcher.ArgsMatcherList.matches')
+def _(c):
+    """every item of an argument list must be satisfied by some argument; no excluded item by any"""
+    c.prop('C05', 'C18')
+    c.types(message='Seq(%s)' % ARG).returns('bool')
+    c.defines('all(any(self.positive[i].matches(message[j]) for j in range(0, len(message))) for i in range(0, len(self.positive))) and '
+              'not any(any(self.negative[i].matches(message[j]) for j in range(0, len(message))) for i in range(0, len(self.negative)))')
+    c.modifies()
+    l0 = c.loop(0)
+    l0.invariant('result is True', 'still_satisfied')
+    l0.invariant('all(any(self.positive[i].matches(message[j]) for j in range(0, len(message))) for i in range(0, _it0))', 'earlier_items_satisfied')
+    l1 = c.loop(1)
+    l1.invariant('found_match is False', 'not_found_yet')
+    l1.invariant('all(not matcher.matches(message[j]) for j in range(0, _it1))', 'no_earlier_argument_satisfies_it')
+    l2 = c.loop(2)
+    l2.invariant('result == (not any(any(self.negative[i].matches(message[j]) for j in range(0, len(message))) for i in range(0, _it2)))', 'excluded_so_far')
+    l3 = c.loop(3)
+    # inside the body of loop 2 its counter already counts the iteration in progress
+    l3.invariant('result == ((not any(any(self.negative[i].matches(message[j]) for j in range(0, len(message))) for i in range(0, _it2 - 1))) and '
+                 'not any(matcher.matches(message[j]) for j in range(0, _it3)))', 'excluded_so_far_inner')
+    c.native_gen(lambda rnd: (gen.args_matcher_list(rnd), gen.rich_message(rnd).args))
+
+
+@contract('core.matcher.IntArgValueMatcher.matches')
+def _(c):
+    c.prop('C05', 'C18')
+    c.types(arg=ARG).returns('bool')
+    c.defines('(isinstance(arg, WlArg.Int) and self.wrapped.matches(cast(WlArg.Int, arg).value)) or '
+              '(isinstance(arg, WlArg.Fd) and self.wrapped.matches(cast(WlArg.Fd, arg).value)) or '
+              '(isinstance(arg, WlArg.Float) and cast(WlArg.Float, arg).value == int(cast(WlArg.Float, arg).value) and self.wrapped.matches(int(cast(WlArg.Float, arg).value))) or '
+              '(isinstance(arg, WlArg.Object) and self.wrapped.matches(cast(WlArg.Object, arg).obj.id))')
+    c.modifies()
+    c.native_gen(lambda rnd: (gen.value_matcher(rnd, 'int'), gen.any_arg(rnd)))
+
+
+@contract('core.matcher.LabelIntArgValueMatcher.matches')
+def _(c):
+    c.prop('C05', 'C18')
+    c.types(arg=ARG).returns('bool')
+    c.defines('(isinstance(arg, WlArg.Int) and hasattr(arg, "labels") and any(self.wrapped.matches(cast(WlArg.Int, arg).labels[k]) for k in range(0, len(cast(WlArg.Int, arg).labels)))) or '
+              '(isinstance(arg, WlArg.Object) and cast(WlArg.Object, arg).obj.type is not None and self.wrapped.matches(cast(WlArg.Object, arg).obj.type)) or '
+              '(isinstance(arg, WlArg.Null) and cast(WlArg.Null, arg).type is not None and self.wrapped.matches(cast(WlArg.Null, arg).type))')
+    c.modifies()
+    l0 = c.loop(0)
+    l0.invariant('all(not self.wrapped.matches(cast(WlArg.Int, arg).labels[k]) for k in range(0, _it0))', 'no_earlier_label')
+    c.native_gen(lambda rnd: (gen.value_matcher(rnd, 'label'), gen.any_arg(rnd)))
+
+
+@contract('core.matcher.FloatArgValueMatcher.matches')
+def _(c):
+    c.prop('C05', 'C18')
+    c.types(arg=ARG).returns('bool')
+    c.defines('isinstance(arg, WlArg.Float) and self.wrapped.matches(cast(WlArg.Float, arg).value)')
+    c.modifies()
+    c.native_gen(lambda rnd: (gen.value_matcher(rnd, 'float'), gen.any_arg(rnd)))
+
+
+@contract('core.matcher.StringArgValueMatcher.matches')
+def _(c):
+    c.prop('C05', 'C18')
+    c.types(arg=ARG).returns('bool')
+    c.defines('isinstance(arg, WlArg.String) and self.wrapped.matches(cast(WlArg.String, arg).value)')
+    c.modifies()
+    c.native_gen(lambda rnd: (gen.value_matcher(rnd, 'string'), gen.any_arg(rnd)))
+
+
+@contract('core.matcher.ArgMatcher.matches')
+def _(c):
+    """by name, by value, or both: the pair (argument name or '', argument) goes to the wrapped pair matcher"""
+    c.prop('C05', 'C18')
+    c.types(arg=ARG).returns('bool')
+    c.defines('self.wrapped.matches((arg.name if arg.name is not None else "", arg))')
+    c.modifies()
+    c.native_gen(lambda rnd: (gen.arg_matcher(rnd), gen.any_arg(rnd)))
+
+
+@contract('core.matcher.ObjectIdMatcher.matches')
+def _(c):
+    c.prop('C05', 'C18')
+    c.types(obj=OBJ).returns('bool')
+    c.defines('self.wrapped.matches((obj.id, obj.generation if obj.generation is not None else 0))')
+    c.modifies()
+    c.native_gen(lambda rnd: gen.obj_case(rnd, 'id'))
+
+
+@contract('core.matcher.ObjectNameMatcher.matches')
+def _(c):
+    c.prop('C05', 'C18')
+    c.types(obj=OBJ).returns('bool')
+    c.defines('obj.type is not None and self.wrapped.matches(obj.type)')
+    c.modifies()
+    c.native_gen(lambda rnd: gen.obj_case(rnd, 'name'))
+
+
+@contract('core.matcher.MessagePattern.matches')
+def _(c):
+    """the connection part must hold, and then: a `.new` pattern selects the message creating a matching object, a `.destroyed` pattern the
+    message destroying one, and otherwise object, message-name and argument parts must all hold"""
+    c.prop('C05', 'C18')
+    c.types(message=MSG).returns('bool')
+    c.defines('self.conn_matcher.matches(message.obj.connection) and ('
+              '(self.match_new and any(isinstance(message.args[k], WlArg.Object) and cast(WlArg.Object, message.args[k]).is_new and '
+              'self.obj_matcher.matches(cast(WlArg.Object, message.args[k]).obj) for k in range(0, len(message.args)))) or '
+              '(self.match_destroyed and message.destroyed_obj is not None and self.obj_matcher.matches(message.destroyed_obj)) or '
+              '(self.obj_matcher.matches(message.obj) and self.name_matcher.matches(message.name) and self.args_matcher.matches(message.args)))')
+    c.modifies()
+    l0 = c.loop(0)
+    l0.invariant('all(not (isinstance(message.args[k], WlArg.Object) and cast(WlArg.Object, message.args[k]).is_new and '
+                 'self.obj_matcher.matches(cast(WlArg.Object, message.args[k]).obj)) for k in range(0, _it0))', 'no_earlier_creation')
+    c.native_gen(lambda rnd: (gen.message_pattern(rnd), gen.rich_message(rnd)))
+
+
+@contract('core.matcher.ConnectionMatcher.matches')
+def _(c):
+    """a connection prefix is matched against the connection's label; messages without a connection count as `unknown`"""
+    c.prop('C05', 'C18', 'C14')
+    c.types(conn='Opt(Obj("interfaces.connection.Connection"))').returns('bool')
+    c.defines('self.wrapped.matches(conn.name() if conn is not None else "unknown")')
+    c.modifies()
+    c.native_gen(lambda rnd: gen.conn_case(rnd))
+
+
+@contract('core.matcher.ObjectArgValueMatcher.matches')
+def _(c):
+    c.prop('C05', 'C18')
+    c.types(arg=ARG).returns('bool')
+    c.ensures('(not isinstance(arg, WlArg.Object)) or result == self.wrapped.matches(cast(WlArg.Object, arg).obj)', 'an_object_argument_is_matched_as_that_object')
+    c.ensures('isinstance(arg, WlArg.Object) or isinstance(arg, WlArg.Null) or result is False', 'other_kinds_never_match')
+    # the nil case builds a stand-in object (id 0, the argument's type): evaluated natively only
+    c.ensures('(not isinstance(arg, WlArg.Null)) or result == self.wrapped.matches(MockObject(id=0, type=arg.type))', 'nil_is_object_zero_of_that_type', native_only=True)
+    c.modifies('new')
+    c.native_gen(lambda rnd: (gen.value_matcher(rnd, 'obj'), gen.any_arg(rnd)))
+
+
+@contract('core.wl.object.MockObject.__init__')
+def _(c):
+    c.inline()
+
+
+@contract('core.matcher.EqMatcher.matches')
+def _(c):
+    c.prop('C05', 'C18')
+    c.bounded('the expected value is of any type (int, float, str), outside the typed heap model').pure()
+    c.types(value='Any').returns('bool')
+    c.ensures('result == (self.expected == value)', 'equality')
+    c.native_gen(lambda rnd: gen.eq_case(rnd))
+
+
+@contract('core.matcher.WildcardMatcher.matches')
+def _(c):
+    """`*` inside a word matches any run of characters, everything else matches itself"""
+    c.prop('C05', 'C18', 'C14')
+    c.bounded('regular-expression engine (re) is outside the verifier; the reference glob is an independent implementation').pure()
+    c.types(text='str').returns('bool')
+    c.ensures('result == glob(self.pattern, text)', 'star_matches_any_run')
+    c.native_gen(lambda rnd: gen.wildcard_case(rnd))
